@@ -6,7 +6,7 @@ Setting: a model `step : St → Tid → Ev → Option St`, a set `Good` of state
 (e.g. "reachable and the latch is open"), a per-thread rank `μ s t : Nat` such that inside `Good`
 * every non-`call` step of thread `t` strictly decreases `μ · t`           (L3, bounded remaining work),
 * a `call` step raises it by at most `K`,
-* a step of `t` leaves the rank of every other thread unchanged.
+* a step of `t` does not raise the rank of any other thread.
 Then along every accepted trace whose threads lie in a finite duplicate-free list `ts`
   `length + Σ_{t ∈ ts} μ s' t ≤ Σ_{t ∈ ts} μ s t + (K+1) · #calls`                (`bounded_run`)
 so an execution that makes finitely many calls is finite, whatever the scheduler does
@@ -23,20 +23,23 @@ theorem total_cons (μ : St → Tid → Nat) (a : Tid) (ts : List Tid) (s : St) 
     total μ (a :: ts) s = μ s a + total μ ts s := by
   simp [total]
 
-/-- ranks of threads other than `t` are unchanged ⇒ the total over a list not containing `t` is -/
+/-- ranks of threads other than `t` do not grow ⇒ neither does the total over a list not containing `t` -/
 theorem total_frame (μ : St → Tid → Nat) (ts : List Tid) (s s' : St) (t : Tid) (ht : t ∉ ts)
-    (hf : ∀ u, u ≠ t → μ s' u = μ s u) : total μ ts s' = total μ ts s := by
+    (hf : ∀ u, u ≠ t → μ s' u ≤ μ s u) : total μ ts s' ≤ total μ ts s := by
   induction ts with
-  | nil => rfl
+  | nil => exact Nat.le_refl _
   | cons a as ih =>
     have ha : a ≠ t := fun h => ht (by simp [h])
     have hn : t ∉ as := fun h => ht (by simp [h])
-    rw [total_cons, total_cons, hf a ha, ih hn]
+    rw [total_cons, total_cons]
+    have := hf a ha
+    have := ih hn
+    omega
 
-/-- a step of `t ∈ ts` changes the total by exactly the change of `t`'s own rank -/
+/-- a step of `t ∈ ts` changes the total by at most the change of `t`'s own rank -/
 theorem total_step (μ : St → Tid → Nat) (ts : List Tid) (hnd : ts.Nodup) (s s' : St) (t : Tid)
-    (ht : t ∈ ts) (hf : ∀ u, u ≠ t → μ s' u = μ s u) :
-    total μ ts s' + μ s t = total μ ts s + μ s' t := by
+    (ht : t ∈ ts) (hf : ∀ u, u ≠ t → μ s' u ≤ μ s u) :
+    total μ ts s' + μ s t ≤ total μ ts s + μ s' t := by
   induction ts with
   | nil => simp at ht
   | cons a as ih =>
@@ -44,14 +47,14 @@ theorem total_step (μ : St → Tid → Nat) (ts : List Tid) (hnd : ts.Nodup) (s
     rw [total_cons, total_cons]
     by_cases hat : a = t
     · subst hat
-      rw [total_frame μ as s s' a hnd.1 hf]
+      have := total_frame μ as s s' a hnd.1 hf
       omega
     · have hta : t ∈ as := by
         rcases List.mem_cons.mp ht with h | h
         · exact absurd h.symm hat
         · exact h
       have := ih hnd.2 hta
-      rw [hf a hat]
+      have := hf a hat
       omega
 
 /-- hypotheses on the model, collected -/
@@ -60,7 +63,7 @@ structure Ranked (step : St → Tid → Ev → Option St) (Good : St → Prop) (
   good : ∀ s t e s', Good s → step s t e = some s' → Good s'
   dec : ∀ s t e s', Good s → step s t e = some s' → isCall e = false → μ s' t < μ s t
   call : ∀ s t e s', Good s → step s t e = some s' → isCall e = true → μ s' t ≤ μ s t + K
-  frame : ∀ s t e s' u, Good s → step s t e = some s' → u ≠ t → μ s' u = μ s u
+  frame : ∀ s t e s' u, Good s → step s t e = some s' → u ≠ t → μ s' u ≤ μ s u
 
 def calls (isCall : Ev → Bool) (es : List (Tid × Ev)) : Nat := es.countP (fun x => isCall x.2)
 
